@@ -10,6 +10,7 @@ def main(tier):
     c.build('asan', ['c13'])
     c.build('plain', ['c13'])
     c.run_family('asan', 'c13', 'lookupindex', env=env, chunk=7)
+    c.run_family('asan' if quick else 'plain', 'c13', 'sharing', env=env)
     # flavours: the memory-safety oracle (ASan/UBSan) rides on the smaller spaces of each tier; the largest spaces run on the
     # plain library (value oracle only). One transition costs ~6 ms CPU under ASan and ~1 ms plain in the 30-carrier universe.
     if quick:
@@ -30,8 +31,8 @@ def main(tier):
              'incl. the next automatic id, add/remove entities, destroy, setModel x3, assignAllIds() / (m0|m1|null), assignIds x 15 types, assignId x 37 items, clearAllIds x4), '
              'core alphabet = 44; depth: quick full 2, core 3; thorough full 3, core 4 (both starts each); states de-duplicated on (both models incl. all ids, which model the annotator '
              'holds, edited-flag, annotator counter + cache + hash read through a mirrored layout); lookups and printModel(m, true) are observations in every reached state. '
-             'preids: every placement of <= %d menu ids on the 30 carriers x 3 backgrounds (2 placed ids: id-less background only) x 47 assign* calls on a fresh annotator (single-item assignments: item()/typed getters only for ids listed once); lookupindex: 30 carriers x {0,1,2 carriers with the id} x '
-             'index in {count, count+1} x 14 getters (with exactly one carrier, where every call aborts: item() for all carriers, all getters for one carrier). distinct_nontrivial = transitions + cases judged by the oracle' % (1 if quick else 2),
+             'preids: every placement of <= %d menu ids on the 30 carriers x 3 backgrounds (2 placed ids: id-less background only) x 47 assign* calls on a fresh annotator (single-item assignments: item()/typed getters only for ids listed once); sharing: <= %d imported units and <= %d imported components, every set partition of the importing entities into ImportSource objects x every subset of sources with an id x {distinct, pairwise equal ids} x {with, without a local units/component listed in between} x 5 assign* calls on a fresh annotator; lookupindex: 30 carriers x {0,1,2 carriers with the id} x '
+             'index in {count, count+1} x 14 getters (with exactly one carrier, where every call aborts: item() for all carriers, all getters for one carrier). distinct_nontrivial = transitions + cases judged by the oracle' % (1 if quick else 2, 3 if quick else 4, 2 if quick else 3),
         assumptions=[
             'reference = independent traversal through public getters (model, encapsulation, units, unit children, import sources, components, component_refs, variables, mapping and connection ids, resets, test/reset values)',
             'assignId(item) REPLACES the id of the item (documented, pinned by the repository tests): the target is exempt from "existing ids unchanged" and must receive an id that was not present before',
